@@ -30,7 +30,30 @@ func (XMLBinder) BindBytes(bts []byte, ptr any) error {
 
 func decodeXML(r io.Reader, obj any) error {
 	dec := xml.NewDecoder(r)
-	err := dec.Decode(obj)
+
+	// the body is one XML document: only white space (and a byte order mark), comments,
+	// processing instructions and directives may stand in front of the root element
+	var start *xml.StartElement
+	for start == nil {
+		tok, err := dec.Token()
+		if err != nil {
+			return err
+		}
+
+		switch x := tok.(type) {
+		case xml.StartElement:
+			start = &x
+		case xml.CharData:
+			if len(bytes.TrimSpace(bytes.TrimPrefix(x, []byte("\xef\xbb\xbf")))) > 0 {
+				return errors.New("invalid XML data: unexpected content before the root element")
+			}
+		case xml.Comment, xml.ProcInst, xml.Directive:
+		default:
+			return errors.New("invalid XML data: unexpected content before the root element")
+		}
+	}
+
+	err := dec.DecodeElement(obj, start)
 	if err != nil {
 		return err
 	}
